@@ -78,7 +78,10 @@ def plain_exprs(cls):
 
 SUBS = [("float", [("x", "0.17")]), ("rational", [("x", "Rational(1, 3)")]), ("symbol", [("x", "y")]),
         ("expr", [("x", "y + 1")]), ("pairs", [("x", "0.17"), ("y", "-0.6")]), ("int", [("x", "2")]),
-        ("y-only", [("y", "1.3")]), ("chained", [("x", "2 * y"), ("y", "0.25")])]
+        ("y-only", [("y", "1.3")]), ("chained", [("x", "2 * y"), ("y", "0.25")]),
+        # a list of pairs is applied in the order given (sympy's contract for lists): the value
+        # is substituted first, *then* x becomes y (which stays); the same variable twice: first wins
+        ("ordered", [("y", "0.25"), ("x", "y")]), ("twice", [("x", "0.25"), ("x", "0.75")])]
 
 
 def evaluate(cls, d, mixed=False):
@@ -274,8 +277,16 @@ def check_case(params):
     if sy:
         vals = [0.17, -0.6][:len(sy)]
         try:
-            dl = d.lambdify(*sy)(*vals)
+            fn = d.lambdify(*sy)
+            first = fn(*[v + 1 for v in vals])      # the compiled function is reusable: called with
+            dl = fn(*vals)                          # other values first, then twice with ours
+            dl2 = fn(*vals)
             dsub = d.subs(list(zip(sy, vals)))
+            if structure(dl2) != structure(dl) or ref.diagram_key(dl2) != ref.diagram_key(dl) \
+                    or structure(first) != structure(d):
+                bad("lambdify-reuse", "calling the lambdified diagram again gives a different diagram: %s, then %s, then %s"
+                    % (first, dl, dl2))
+                return out
         except Exception as e:  # noqa
             bad("lambdify-raises", "lambdify/subs raised %s: %s" % (type(e).__name__, str(e)[:140]))
             return out
@@ -356,7 +367,7 @@ def run(ctx):
             seqs = seqs[::3] + seqs[-6:]
             ctx.cap_hit("%s: two-box diagrams every 3rd (all single boxes complete)" % cls)
         for seq in seqs:
-            for sub in (SUBS[0], SUBS[3], SUBS[4], SUBS[7]):
+            for sub in (SUBS[0], SUBS[3], SUBS[4], SUBS[7], SUBS[8]):
                 mode = "args" if len(sub[1]) == 1 else "pairs"
                 items.append(("case", dict(cls=cls, layers=seq, subs=list(sub), mode=mode)))
     ctx.bounds.update(expressions=EXPRS, substitutions=[s[0] for s in SUBS], values=VALUES,
